@@ -1081,3 +1081,277 @@ pub fn binary_appid(cfg: Cfg) -> Space {
         },
     )
 }
+
+// ---------------------------------------------------------------------------------------------
+// domain-structured products
+
+/// MSG-CALENDAR: date/time fields have calendar structure that code likes to special-case (end of
+/// month, leap seconds, epochs). Types 4 and 11: 14 characteristic years × all 16 months × all 32 days
+/// × hours {0,12,23,24,31} × minutes {0,59,60,63} × seconds {0,59,60,61,63}; type 5 ETA: the COMPLETE
+/// 2^20 product month × day × hour × minute.
+pub fn calendar(cfg: Cfg) -> Space {
+    const YEARS: [u64; 14] = [0, 1, 1970, 1980, 1999, 2000, 2016, 2019, 2024, 2038, 2100, 8191, 9999, 16383];
+    const HOURS: [u64; 5] = [0, 12, 23, 24, 31];
+    const MINS: [u64; 4] = [0, 59, 60, 63];
+    const SECS: [u64; 5] = [0, 59, 60, 61, 63];
+    let per = 14 * 16 * 32 * 5 * 4 * 5;
+    Space::new(
+        "MSG-CALENDAR",
+        "types 4 and 11: 14 characteristic years x 16 months x 32 days x hours {0,12,23,24,31} x minutes {0,59,60,63} x seconds {0,59,60,61,63}; type 5: complete 2^20 ETA product (month x day x hour x minute)",
+        2 * per + (1 << 20),
+        move |i, l| {
+            if i < 2 * per {
+                let mut r = Radix(i);
+                let t = if r.take(2) == 0 { 4u64 } else { 11 };
+                let sec = SECS[r.take(5) as usize];
+                let min = MINS[r.take(4) as usize];
+                let hour = HOURS[r.take(5) as usize];
+                let day = r.take(32);
+                let month = r.take(16);
+                let year = YEARS[r.0 as usize];
+                let mut p = vec![0u8; 21];
+                set_bits(&mut p, 0, 6, t);
+                set_bits(&mut p, 8, 30, 2_300_000);
+                set_bits(&mut p, 38, 14, year);
+                set_bits(&mut p, 52, 4, month);
+                set_bits(&mut p, 56, 5, day);
+                set_bits(&mut p, 61, 5, hour);
+                set_bits(&mut p, 66, 6, min);
+                set_bits(&mut p, 72, 6, sec);
+                judge_payload(l, &p, cfg);
+            } else {
+                let v = i - 2 * per;
+                let mut p = vec![0u8; 53];
+                set_bits(&mut p, 0, 6, 5);
+                set_bits(&mut p, 274, 20, v);
+                judge_payload(l, &p, cfg);
+            }
+        },
+    )
+}
+
+/// Words a decoder might be tempted to treat specially.
+pub const DICTIONARY: [&str; 64] = [
+    "N/A", "NA", "NONE", "NULL", "NIL", "UNKNOWN", "UNDEFINED", "UNAVAILABLE", "NOT AVAILABLE", "EMPTY", "TEST",
+    "TESTING", "DEFAULT", "V-AIS", "VAIS", "VIRTUAL", "VIRTUAL AID", "SART", "AIS-SART", "SART ACTIVE", "SART TEST",
+    "MOB", "MOB ACTIVE", "MOB TEST", "EPIRB", "EPIRB ACTIVE", "EPIRB TEST", "SAR", "RESCUE", "MAYDAY", "PAN PAN",
+    "SECURITE", "SIMRAD", "GARMIN", "FURUNO", "ICOM", "SAAB", "JRC", "SRT", "RAYMARINE", "VESPER", "EM-TRAK", "ACR",
+    "MCMURDO", "KODEN", "TRUE HEADING", "COMAR", "WEATHERDOCK", "AMEC", "DIGITAL YACHT", "0", "00000", "1234567",
+    "AAAAAAA", "ZZZZZZZ", "???????", "@", "_", "A B", "A  B", "A@B", "A@@B", "@A", " A",
+];
+
+/// MSG-TEXT-DICT: every text field × 64 dictionary words × 6 placements (left aligned with '@' padding,
+/// with space padding, right aligned, centred, repeated to fill, truncated to the field) × 2 contexts.
+pub fn text_dictionary(cfg: Cfg, vars: Vec<Variant>) -> Space {
+    let mut tf = text_fields(&vars);
+    // text fields that touch each other are also filled as ONE field (a word spanning both)
+    let mut joined = Vec::new();
+    for a in &tf {
+        for b in &tf {
+            if a.vi == b.vi && a.off + 6 * a.nchars == b.off {
+                joined.push(TextField {
+                    vi: a.vi,
+                    off: a.off,
+                    nchars: a.nchars + b.nchars,
+                    name: format!("{}+{}", a.name, b.name),
+                });
+            }
+        }
+    }
+    tf.extend(joined);
+    let nt = tf.len() as u64;
+    Space::new(
+        "MSG-TEXT-DICT",
+        "every text field x 64 dictionary words (status words, device classes, maker names, degenerate strings) x 6 placements x 2 contexts",
+        nt * 64 * 6 * 2,
+        move |i, l| {
+            let mut r = Radix(i);
+            let ctx = r.take(2);
+            let place = r.take(6);
+            let w = DICTIONARY[r.take(64) as usize];
+            let t = &tf[r.0 as usize];
+            let v = &vars[t.vi];
+            let n = t.nchars;
+            let code = |c: u8| -> u8 {
+                let c = c.to_ascii_uppercase();
+                if (64..96).contains(&c) {
+                    c - 64
+                } else if (32..64).contains(&c) {
+                    c
+                } else {
+                    63
+                }
+            };
+            let wb: Vec<u8> = w.bytes().map(code).collect();
+            let mut txt: Vec<u8> = match place {
+                0 => vec![0u8; n],  // '@' padding
+                1 => vec![32u8; n], // space padding
+                2 => vec![32u8; n],
+                3 => vec![0u8; n],
+                4 => (0..n).map(|k| wb[k % wb.len()]).collect(),
+                _ => vec![0u8; n],
+            };
+            match place {
+                0 | 1 | 5 => {
+                    for (k, &c) in wb.iter().take(n).enumerate() {
+                        txt[k] = c;
+                    }
+                }
+                2 => {
+                    let m = wb.len().min(n);
+                    for k in 0..m {
+                        txt[n - m + k] = wb[k];
+                    }
+                }
+                3 => {
+                    let m = wb.len().min(n);
+                    let st = (n - m) / 2;
+                    for k in 0..m {
+                        txt[st + k] = wb[k];
+                    }
+                }
+                _ => {}
+            }
+            let mut p = v.base(ctx);
+            put_text(&mut p, t.off, &txt);
+            judge_payload(l, &p, cfg);
+        },
+    )
+}
+
+/// MSG-LIST-REL: relations BETWEEN list elements. Types 7/13: all 4^4 assignments of four MMSI
+/// values (0, 1, 123456789, 2^30-1) × sequence numbers to the four slots (duplicates, every order).
+/// Type 20: contiguous / overlapping reservation blocks: offset[i+1] = offset[i] + slots[i] + d,
+/// d ∈ {-1, 0, 1}, over menus of offsets, ALL 16 slot counts, time-outs and increments, with an
+/// optional third block.
+pub fn list_relations(cfg: Cfg) -> Space {
+    const MM: [u64; 4] = [0, 1, 123_456_789, (1 << 30) - 1];
+    const OFFS: [u64; 8] = [0, 1, 100, 1125, 2000, 2234, 2235, 2249];
+    const TMO: [u64; 3] = [0, 3, 7];
+    const INC: [u64; 4] = [0, 1, 750, 2047];
+    let n_ack = 2 * 256 * 4;
+    let n_res = 8 * 16 * 3 * 4 * 3 * 2 * 2 * 2 * 2;
+    Space::new(
+        "MSG-LIST-REL",
+        "types 7/13: all 4^4 assignments of 4 MMSI values to 4 acknowledgement slots x 4 sequence patterns; type 20: contiguous/overlapping reservation blocks (8 offsets x 16 slot counts x 3 time-outs x 4 increments x gap {-1,0,+1} x same/different time-out, increment, slot count x optional third block)",
+        n_ack + n_res,
+        move |i, l| {
+            if i < n_ack {
+                let mut r = Radix(i);
+                let t = if r.take(2) == 0 { 7u64 } else { 13 };
+                let seqpat = r.take(4);
+                let mut p = vec![0u8; 21];
+                set_bits(&mut p, 0, 6, t);
+                set_bits(&mut p, 8, 30, 366_000_001);
+                for k in 0..4usize {
+                    let m = MM[r.take(4) as usize];
+                    set_bits(&mut p, 40 + 32 * k, 30, m);
+                    let sq = match seqpat {
+                        0 => 0,
+                        1 => 3,
+                        2 => k as u64,
+                        _ => 3 - k as u64,
+                    };
+                    set_bits(&mut p, 70 + 32 * k, 2, sq);
+                }
+                judge_payload(l, &p, cfg);
+            } else {
+                let mut r = Radix(i - n_ack);
+                let third = r.take(2) == 1;
+                let same_n = r.take(2) == 1;
+                let same_inc = r.take(2) == 1;
+                let same_t = r.take(2) == 1;
+                let gap = r.take(3) as i64 - 1;
+                let inc = INC[r.take(4) as usize];
+                let tmo = TMO[r.take(3) as usize];
+                let n = r.take(16);
+                let off = OFFS[r.0 as usize];
+                let nblocks = if third { 3 } else { 2 };
+                let mut p = vec![0u8; if third { 17 } else { 13 }];
+                set_bits(&mut p, 0, 6, 20);
+                set_bits(&mut p, 8, 30, 2_442_001);
+                let mut o = off as i64;
+                for k in 0..nblocks {
+                    let nk = if k == 0 || same_n { n } else { (n + 7) % 16 };
+                    let tk = if k == 0 || same_t { tmo } else { (tmo + 1) % 8 };
+                    let ik = if k == 0 || same_inc { inc } else { (inc + 1) % 2048 };
+                    set_bits(&mut p, 40 + 30 * k, 12, (o.rem_euclid(4096)) as u64);
+                    set_bits(&mut p, 52 + 30 * k, 4, nk);
+                    set_bits(&mut p, 56 + 30 * k, 3, tk);
+                    set_bits(&mut p, 59 + 30 * k, 11, ik);
+                    o = o + nk as i64 + gap;
+                }
+                judge_payload(l, &p, cfg);
+            }
+        },
+    )
+}
+
+/// MSG-BIN-MARKER: binary types 6, 8, 17 — the first data byte takes ALL 256 values while the next two
+/// data bytes are {a copy of the two header bytes just before the data, 00 00, FF FF, the same byte
+/// repeated}; header position-coded or zero. (Marker / preamble / "repeated header word" handling.)
+pub fn binary_marker(cfg: Cfg) -> Space {
+    let kinds: [(u64, usize); 3] = [(6, 11), (8, 7), (17, 15)];
+    Space::new(
+        "MSG-BIN-MARKER",
+        "types 6, 8, 17 x first data byte 0..=255 x following two bytes {copy of the last two header bytes, 0000, FFFF, marker repeated} x 2 headers x 2 data lengths",
+        3 * 256 * 4 * 2 * 2,
+        move |i, l| {
+            let mut r = Radix(i);
+            let (t, h) = kinds[r.take(3) as usize];
+            let b0 = r.take(256) as u8;
+            let rel = r.take(4);
+            let hdr = r.take(2);
+            let dlen = if r.0 == 0 { 3usize } else { 24 };
+            let mut p: Vec<u8> = (0..h + dlen)
+                .map(|j| if hdr == 0 { 0 } else { (j as u8).wrapping_mul(29).wrapping_add(7) })
+                .collect();
+            set_bits(&mut p, 0, 6, t);
+            if t == 17 && hdr == 1 {
+                // a plausible DGNSS header: message type 1, station 0x2A5
+                set_bits(&mut p, 80, 6, 1);
+                set_bits(&mut p, 86, 10, 0x2A5);
+            }
+            p[h] = b0;
+            let (c1, c2) = match rel {
+                0 => (p[h - 2], p[h - 1]),
+                1 => (0, 0),
+                2 => (0xFF, 0xFF),
+                _ => (b0, b0),
+            };
+            p[h + 1] = c1;
+            p[h + 2] = c2;
+            if t == 17 && rel == 0 {
+                // for type 17 "the header" of the correction data is its first 16 bits (bits 80..95)
+                p[h + 1] = p[10];
+                p[h + 2] = p[11];
+            }
+            judge_payload(l, &p, cfg);
+        },
+    )
+}
+
+/// MSG-ASCII: text of the wrong layer passed as a payload — every seed sentence / line kind as raw
+/// bytes (and its prefixes of 5..=21 bytes). The decoder must treat them as the bit strings they are.
+pub fn ascii_payloads(cfg: Cfg) -> Space {
+    let mut texts: Vec<Vec<u8>> = crate::props::lineprops::seeds().into_iter().filter(|s| s.len() <= 120).collect();
+    for t in ["!AIVDM", "!AIVDO", "$AIVDM", "!BSVDM", "!ABVDO,1,1,,A,", "$GPGGA,", "\\s:x\\!AIVDM"] {
+        texts.push(t.as_bytes().to_vec());
+    }
+    let nt = texts.len() as u64;
+    Space::new(
+        "MSG-ASCII",
+        "every seed sentence and NMEA address as RAW payload bytes x prefixes of 5..=21 bytes and the whole text",
+        nt * 18,
+        move |i, l| {
+            let t = &texts[(i / 18) as usize];
+            let k = (i % 18) as usize;
+            let len = if k == 17 { t.len() } else { (5 + k).min(t.len()) };
+            if k < 17 && 5 + k > t.len() {
+                l.skip();
+                return;
+            }
+            judge_payload(l, &t[..len], cfg);
+        },
+    )
+}
